@@ -1,3 +1,5 @@
+#include <limits>
+
 #include <occa/core/base.hpp>
 #include <occa/core/memory.hpp>
 #include <occa/core/device.hpp>
@@ -9,6 +11,17 @@
 #endif
 
 namespace occa {
+  namespace {
+    // Scale a number of entries to bytes. Values that no memory can hold are
+    // saturated (instead of overflowing) so that the range checks reject them.
+    inline dim_t entriesToBytes(const int dtypeSize, const dim_t entries) {
+      const dim_t maxEntries = (std::numeric_limits<dim_t>::max() / 4) / dtypeSize;
+      if (entries > maxEntries) return (maxEntries * dtypeSize);
+      if (entries < -maxEntries) return -(maxEntries * dtypeSize);
+      return (dtypeSize * entries);
+    }
+  }
+
   memory::memory() :
       modeMemory(NULL) {}
 
@@ -185,10 +198,11 @@ namespace occa {
     if (!isInitialized()) return memory();
 
     const int dtypeSize = modeMemory->dtype_->bytes();
-    const dim_t offset_ = dtypeSize * offset;
-    const dim_t bytes  = dtypeSize * ((count == -1)
-                                      ? (length() - offset)
-                                      : count);
+    const dim_t offset_ = entriesToBytes(dtypeSize, offset);
+    const dim_t bytes  = entriesToBytes(dtypeSize,
+                                        (count == -1)
+                                        ? (dim_t) (length() - offset)
+                                        : count);
 
     OCCA_ERROR("Trying to allocate negative elements (" << count << ")",
                bytes >= 0);
@@ -198,7 +212,7 @@ namespace occa {
 
     OCCA_ERROR("Memory size is less than offset + count ("
                 << size() << " <" << offset << " + " << count << ")",
-               (offset + (dim_t) count) <= (dim_t) size());
+               (offset_ + bytes) <= (dim_t) modeMemory->size);
 
     occa::memory m(modeMemory->slice(offset_, bytes));
     m.setDtype(dtype());
@@ -213,8 +227,8 @@ namespace occa {
     if (!isInitialized()) return;
 
     const int dtypeSize = modeMemory->dtype_->bytes();
-    const dim_t bytes  = dtypeSize * ((count == -1) ? length() : count);
-    const dim_t offset_ = dtypeSize * offset;
+    const dim_t bytes  = entriesToBytes(dtypeSize, (count == -1) ? (dim_t) length() : count);
+    const dim_t offset_ = entriesToBytes(dtypeSize, offset);
 
     OCCA_ERROR("Trying to allocate negative bytes (" << bytes << ")",
                bytes >= -1);
@@ -239,9 +253,9 @@ namespace occa {
     src.assertInitialized();
 
     const int dtypeSize = modeMemory->dtype_->bytes();
-    const dim_t bytes  = dtypeSize * ((count == -1) ? length() : count);
-    const dim_t destOffset_ = dtypeSize * destOffset;
-    const dim_t srcOffset_ = src.modeMemory->dtype_->bytes() * srcOffset;
+    const dim_t bytes  = entriesToBytes(dtypeSize, (count == -1) ? (dim_t) length() : count);
+    const dim_t destOffset_ = entriesToBytes(dtypeSize, destOffset);
+    const dim_t srcOffset_ = entriesToBytes(src.modeMemory->dtype_->bytes(), srcOffset);
 
     OCCA_ERROR("Trying to allocate negative bytes (" << bytes << ")",
                bytes >= -1);
@@ -270,8 +284,8 @@ namespace occa {
     if (!isInitialized()) return;
 
     const int dtypeSize = modeMemory->dtype_->bytes();
-    const dim_t bytes  = dtypeSize * ((count == -1) ? length() : count);
-    const dim_t offset_ = dtypeSize * offset;
+    const dim_t bytes  = entriesToBytes(dtypeSize, (count == -1) ? (dim_t) length() : count);
+    const dim_t offset_ = entriesToBytes(dtypeSize, offset);
 
     OCCA_ERROR("Trying to allocate negative bytes (" << bytes << ")",
                bytes >= -1);
@@ -296,9 +310,9 @@ namespace occa {
     dest.assertInitialized();
 
     const int dtypeSize = modeMemory->dtype_->bytes();
-    const dim_t bytes  = dtypeSize * ((count == -1) ? length() : count);
-    const dim_t destOffset_ = dest.modeMemory->dtype_->bytes() * destOffset;
-    const dim_t srcOffset_ = dtypeSize * srcOffset;
+    const dim_t bytes  = entriesToBytes(dtypeSize, (count == -1) ? (dim_t) length() : count);
+    const dim_t destOffset_ = entriesToBytes(dest.modeMemory->dtype_->bytes(), destOffset);
+    const dim_t srcOffset_ = entriesToBytes(dtypeSize, srcOffset);
 
     OCCA_ERROR("Trying to allocate negative bytes (" << bytes << ")",
                bytes >= -1);
